@@ -38,7 +38,7 @@ def scenarios(tier, seed):
                     b2 = -0.5        # y = 1/(1+t) blows up at t = -1
                 else:
                     b2 = b
-                for hist in range(4):
+                for hist in range(5):
                     n += 1
                     if not thorough and (n + seed) % 3:
                         continue
@@ -53,15 +53,23 @@ def scenarios(tier, seed):
                     elif hist == 2:
                         sc["ops"] = [{"op": "integrate", "events": [{"kind": "time", "c": Q(0.3)}, {"kind": "time", "c": Q(0.55), "term": True}]},
                                      {"op": "integrate"}]
-                    else:
+                    elif hist == 3:
                         sc["ops"] = [{"op": "integrate", "fault": 11 + (n % 17)}, {"op": "integrate"}]
+                    else:
+                        # an EVENT FUNCTION raises in the middle of the run (event handling is the one place that consults the dense
+                        # output while the run is in progress); a user lookup after the failure, then the run is resumed without events
+                        if hist == 4 and prob in ("rat", "tdep") and (n + seed) % 2:
+                            continue
+                        sc["ops"] = [{"op": "integrate", "events": [{"kind": "time", "c": Q(0.3)}, {"kind": "time", "c": Q(0.8), "dir": 1}],
+                                      "fault": 9 + (n % 23), "faultSite": "event"},
+                                     {"op": "query"}, {"op": "integrate"}]
                     scs.append(sc)
     return gen.number(scs, "C06_")
 
 
 def check(run, replay=None):
     run.rule = ("scenarios = method family x direction/placement x problem (oscillator, pendulum, two rational-solution problems) x history "
-                "(single, split with a repeated target, terminal event + continuation, fault + resume), dense output on; every grid point and "
+                "(single, split with a repeated target, terminal event + continuation, fault + resume, raising event function + lookup + resume), dense output on; every grid point and "
                 "3 inner points per step are queried (scalar and array form); non-trivial = scenario with >= 3 pieces; distinct by "
                 "(method, span, problem, history)")
     if replay and isinstance(replay.get("scenario"), dict) and "modelreplay" in replay["scenario"]:
